@@ -18,7 +18,7 @@
 (* Mode "matrix": the complete matrix  field x operator x literal  over    *)
 (* the value pools, x nil-not-equal x optional/mandatory; one vector each. *)
 (***************************************************************************)
-EXTENDS WfParser, WfEval, WfJson, Json, SequencesExt
+EXTENDS WfParser, WfEval, WfJson, WfText, Json, SequencesExt
 
 CONSTANTS MaxLen, Mode
 
@@ -136,6 +136,17 @@ Den(seq, ctx) ==
   ELSE AtomVal(seq[1], ctx)
 
 Parsed(seq) == ParseFilter(Toks(seq), Schemes[1], 128)
+
+(* The two L2 layers agree: the character-level parser (WfText), run on the words written out and   *)
+(* separated by single spaces, yields the verdict and the AST of the token-level parser.            *)
+WordCp == <<<<40>>, <<41>>, <<110, 111, 116>>, <<97, 110, 100>>, <<111, 114>>, <<120, 111, 114>>, <<98, 49>>, <<98, 50>>, <<105, 32, 61, 61, 32, 49>>>>
+ChainIdents == <<[name |-> "i", cp |-> <<105>>], [name |-> "s", cp |-> <<115>>], [name |-> "ip", cp |-> <<105, 112>>], [name |-> "b1", cp |-> <<98, 49>>], [name |-> "b2", cp |-> <<98, 50>>]>>
+RECURSIVE JoinSp(_)
+JoinSp(seq) == IF seq = <<>> THEN <<>> ELSE IF Len(seq) = 1 THEN WordCp[seq[1]] ELSE WordCp[seq[1]] \o <<32>> \o JoinSp(Tail(seq))
+TextAgrees == (Mode \in {"chain", "gram"} /\ done) =>
+   LET t == ParseText(JoinSp(ws), Schemes[1], 128, -1, ChainIdents) p == Parsed(ws) IN
+   /\ (t.v = "yes") = p.ok
+   /\ p.ok => t.node = p.node
 
 ParserSound == (Mode \in {"chain", "gram"} /\ done) => (Parsed(ws).ok = InG(ws))
 PrecOk == (Mode \in {"chain", "gram"} /\ done /\ Parsed(ws).ok) =>
